@@ -78,11 +78,27 @@ pub fn monitor(out: &RunOut) -> MonOut {
         let mut committed_model: Option<Vec<AppState>> = None; // record as of the last commit that matched
         let mut first_probe_seen = false;
         let mut pending_ping: Option<usize> = None;
+        // a successful ping happened at this index: its values must be committed before the next wait
+        let mut ping_commit_due: Option<usize> = None;
         for i in l.start..l.end {
             let r = &h[i];
             let site = format!("L{}@{}", l.life, i);
             match &r.kind {
                 Kind::Policy(PolicyRec::ComputeNext { apps, .. }) | Kind::Policy(PolicyRec::CheckAllowed { apps, .. }) => {
+                    if let (Some(at), Some(md), false) = (ping_commit_due.take(), &model, resync) {
+                        // R3 for pings: the record committed after the ping restores the current values
+                        m.count("R3.successful_pings_committed");
+                        let last_probe: Option<Vec<AppState>> = (at..i).rev().find_map(|j| match &h[j].kind {
+                            Kind::Probe { apps, .. } => Some(apps.iter().map(from_rec).collect()),
+                            _ => None,
+                        });
+                        let want = restored(&l.presets, md);
+                        match last_probe {
+                            Some(seen) if seen == want => {}
+                            Some(seen) => m.viol(p, "R3", &site, format!("after a successful ping a restart would restore {:?}, expected {:?}", seen, want)),
+                            None => m.viol(p, "R3", &site, "after a successful ping nothing was committed to storage".to_string()),
+                        }
+                    }
                     let seen: Vec<AppState> = apps.iter().map(from_rec).collect();
                     match (&mut model, resync) {
                         (None, _) => {
@@ -150,6 +166,7 @@ pub fn monitor(out: &RunOut) -> MonOut {
                                             m.count("R4.successful_ping");
                                             m.sig(format!("ping|{}", canon(doc).len() % 97));
                                             apply_doc(md, doc);
+                                            ping_commit_due = Some(i);
                                         }
                                         (Some(false), _) => {}
                                         _ => resync = true,
